@@ -728,7 +728,9 @@ def monitorOp (mu : Mon) (prev : Args) (toks : List String) (implOk : Bool) (out
           | none => [])
       | _, _ => [])
     let f6 := f6 ++
-      (if (cur.list "pvotes").all (fun b => (cur.list "votes").contains b) then [] else [mk "C06" "C06/flex/vote-views-differ" "Vote vs ListVotes"]) ++
+      (if (cur.list "pvotes").all (fun b => (cur.list "votes").contains b) then [] else
+        [mk "C06" "C06/flex/vote-views-differ" "Vote vs ListVotes",
+         mk "C20" "C20/votes-listing-vs-point-queries" "a ballot returned by Vote is missing from the paged ListVotes walk"]) ++
       (let ks := O.votes.map fun b => (b.id, b.addr)
        if ks.eraseDups.length == ks.length then [] else [mk "C06" "C06/flex/two-ballots" "an address is listed twice for one proposal"]) ++
       (P.votes.flatMap fun b => if O.votes.contains b then [] else [mk "C06" "C06/flex/ballot-changed" s!"id={b.id} voter={b.addr}"]) ++
